@@ -1235,7 +1235,8 @@ def translate_receivers(read):
 DEC_FIELDS = {
     "bootloaderHello": ("BootloaderHelloEvent", ["programmer_address", "bootloader_address"]), "programmerHello": ("ProgrammerHelloEvent", ["programmer_address"]),
     "startFirmwareUpgrade": ("ProgrammerStartFirmwareUpgradeEvent", ["receiver_address", "programmer_address", "firmware_size"]),
-    "ack": ("AckEvent", ["receiver_address", "transmitter_address"]), "configuratorHello": ("ConfiguratorHelloEvent", []),
+    "ack": ("AckEvent", ["receiver_address", "transmitter_address"]), "data": ("DataEvent", ["receiver_address", "transmitter_address", "data_len", "data"]),
+    "configuratorHello": ("ConfiguratorHelloEvent", []),
     "bcmChange": ("BcmChangeBrightnessEvent", ["bcm_address", "transmitter_address", "index", "value"]),
     "buttonPressed": ("ButtonPressedEvent", ["receiver_address", "button_address", "index"]), "buttonReleased": ("ButtonReleasedEvent", ["receiver_address", "button_address", "index"]),
     "systemTick": ("SystemTickEvent", ["receiver_address"]), "startConfigUpgrade": ("ProgrammerStartConfigUpgradeEvent", ["receiver_address", "programmer_address", "config_size"]),
@@ -1243,7 +1244,7 @@ DEC_FIELDS = {
     "bcmAnimate": ("BcmAnimateBrightnessEvent", ["bcm_address", "transmitter_address", "index", "duration", "target_value"]),
     "relaySet": ("RelaySetValueEvent", ["relay_address", "transmitter_address", "index", "value"]), "gatewayDiscover": ("GatewayDiscoverEvent", ["device_address", "gateway_address"]),
 }
-DEC_TYPES = {"bootloaderHello": ["u16", "u16"], "programmerHello": ["u16"], "startFirmwareUpgrade": ["u16", "u16", "u32"], "ack": ["u16", "u16"], "configuratorHello": [],
+DEC_TYPES = {"bootloaderHello": ["u16", "u16"], "programmerHello": ["u16"], "startFirmwareUpgrade": ["u16", "u16", "u32"], "ack": ["u16", "u16"], "data": ["u16", "u16", "u16", "bytes"], "configuratorHello": [],
              "bcmChange": ["u16", "u16", "u8", "bcm"], "buttonPressed": ["u16", "u16", "u8"], "buttonReleased": ["u16", "u16", "u8"], "systemTick": ["u16"],
              "startConfigUpgrade": ["u16", "u16", "u32"], "setDeviceAddress": ["u16", "u16", "u16"], "bcmAnimate": ["u16", "u16", "u8", "u32", "bcm"],
              "relaySet": ["u16", "u16", "u8", "relay"], "gatewayDiscover": ["u16", "u16"]}
@@ -1272,6 +1273,12 @@ class DecTranslator:
             raise Untranslatable("from_be_bytes of something else")
         if e[0] == "index" and e[1] == ("path", ["packet", "data"]) and e[2][0] == "num":
             return ("Prim.idx p.data %d" % e[2][1], "u8")
+        # `let mut v = vec![0; n as usize]; for i in 0..n as usize { v[i] = packet.data[i + K]; }` (rewritten to `__copy_from(n, K)` before parsing)
+        if e[0] == "call" and e[1] == ("path", ["__copy_from"]) and len(e[2]) == 2 and e[2][0][0] == "path" and e[2][1][0] == "num":
+            n, ty = self.pure(e[2][0], env)
+            if ty != "u16":
+                raise Untranslatable("copy loop over a length of type " + ty)
+            return ("Prim.copyFrom p.data %d %s.toNat" % (e[2][1][1], n), "bytes")
         if e[0] == "try" and e[1][0] == "call" and e[1][1][0] == "path" and e[1][1][1] in (["BcmValue::deserialize"], ["RelayValue::deserialize"]) and len(e[1][2]) == 1:
             a = e[1][2][0]
             if a[0] == "index" and a[1] == ("path", ["packet", "data"]) and a[2][0] == "range_from":
@@ -1297,6 +1304,17 @@ class DecTranslator:
                 return ("BROADCAST", "u16")
         if e[0] == "call" and e[1] == ("path", ["packet", "data", "len"]) and not e[2]:
             return ("p.data.length", "usize")
+        if e[0] == "as" and e[1] == "usize":
+            t, ty = self.pure(e[2], env)
+            if ty in ("u16", "u8"):
+                return ("%s.toNat" % t, "usize")
+            if ty in ("usize", "int"):
+                return (t, "usize")
+        if e[0] == "arith" and e[1] == "+":
+            a, ta = self.pure(e[2], env)
+            b, tb = self.pure(e[3], env)
+            if {ta, tb} <= {"usize", "int"} and "usize" in (ta, tb):
+                return ("(%s + %s)" % (a, b), "usize")      # no overflow: a `u16` (or a length) plus a small literal
         raise Untranslatable("expression")
 
     def value(self, e, env, k):
@@ -1367,7 +1385,9 @@ def translate_decoders(bodies, codes):
         try:
             if kind not in bodies:
                 raise Untranslatable("no try_from_packet found")
-            body = Parser(tokenize(bodies[kind])).block()
+            src_text = re.sub(r"let\s+mut\s+(\w+)\s*=\s*vec!\[0;\s*(\w+)\s+as\s+usize\];\s*for\s+(\w+)\s+in\s+0\.\.\(?\2\s+as\s+usize\)?\s*\{\s*\1\[\3\]\s*=\s*packet\.data\[\3\s*\+\s*(\d+)\];\s*\}",
+                              lambda m: "let %s = __copy_from(%s, %s);" % (m.group(1), m.group(2), m.group(4)), bodies[kind])
+            body = Parser(tokenize(src_text)).block()
             text = DecTranslator(kind, codes).stmts(body, {}, "  ")
             text = "\n".join(l if l.startswith(" ") else "  " + l for l in text.split("\n"))
             out.append("/-- translated from `%s::try_from_packet` in src/event -/\ndef decode_%s (p : Packet) : Res CErr Event :=\n%s\n" % (DEC_FIELDS[kind][0], kind, text))
@@ -1381,7 +1401,7 @@ def translate_decoders(bodies, codes):
             "/-! GENERATED by bin/extract (bin/rust2lean.py) from src/event/*.rs of the repository under verification — do not edit.\n"
             "Every run of a check regenerates this file from /repo's working tree before building the theorems. -/\n"
             "namespace Ross.Src\nopen Ross\n\n" + "\n".join(out) +
-            "\n/-- the decoder of every kind: the translated one where there is one (the data and message decoders — a copy loop, a\n`transmute_copy` — are outside the translated subset and are the model's) -/\n"
+            "\n/-- the decoder of every kind: the translated one where there is one (the message decoder — a `transmute_copy` — is outside the translated subset and is the model's) -/\n"
             "def decodeK (k : Kind) (p : Packet) : Res CErr Event :=\n  match k with\n" + disp + "\n  | k => decode k p\n"
             "\n/-- decoders the translator could not translate on this run (they fall back to the model's `decode`) -/\n"
             "def decodersNotTranslated : List String := [" + ", ".join('"%s"' % m for m in missing) + "]\n\nend Ross.Src\n")
